@@ -54,7 +54,6 @@ Init == /\ st = [ctx |-> [w \in WS |-> <<>>]]
 \* one API call: new secrets state r, events evs appended, flow of sl updated;
 \* all: the participant entries of the transaction a signature in r.out commits to;
 \* consumed: FALSE iff the call is a successful finalize that leaves its context behind
-Do(sl, r, evs, f2) == DoS(sl, r, evs, f2, {}, TRUE)
 DoS(sl, r, evs, f2, all, consumed) ==
   /\ st' = r.st
   /\ sctx' = SctxAfter(sctx, r.out, all)
@@ -67,6 +66,7 @@ DoS(sl, r, evs, f2, all, consumed) ==
                  \cup (IF SignsOnce(sctx, r.out, all) THEN {} ELSE {"NonceSignsOnce"})
                  \cup (IF consumed THEN {} ELSE {"ContextConsumed"})
   /\ hist' = hist \o evs
+Do(sl, r, evs, f2) == DoS(sl, r, evs, f2, {}, TRUE)
 
 AStart(sl) ==
   /\ flow[sl].kind = "none"
